@@ -623,4 +623,11 @@ def run(res, tier):
         cmp3(p, res)
         cmp4(p, res)
         cmp5(p, res)
+        # compression followed by serialisation and deserialisation: compressed layouts restore every serialised field (seeds included)
+        from . import c18
+        rd, wr = c18.readers_writers(p)
+        res.rule("SER-6", "compressed layouts: every receiver field serialised by write_to (seed table included) is stored back by read_from")
+        res.rule("SER-4", "compressed layouts: write_to and read_from perform the same ordered sequence of items")
+        n6 = c18.ser6(p, res, rd, wr, only=lambda k: "ompressed" in k)
+        res.floor("SER-6", "compressed writer/reader pairs", n6, 11)
         res.fn_count += len(kernel_sites(p)) + 6
